@@ -5,6 +5,7 @@ size_t gh_len;      /* terminator index of the string handed to an in-place rout
 size_t gh_k;        /* ghost index */
 char gh_c0;         /* original character at the ghost index */
 int gh_wlen;        /* _q_makeword: length of the split-off word */
+#define ISB64(c) (((c) >= 'A' && (c) <= 'Z') || ((c) >= 'a' && (c) <= 'z') || ((c) >= '0' && (c) <= '9') || (c) == '+' || (c) == '/')
 #include "src/internal/qinternal.c"
 #include "src/utilities/qencode.c"
 
@@ -87,5 +88,34 @@ void h_makeword(void) {
     }
     free(w);
     free(str);
+    QV_END();
+}
+
+/* qbase64_encode on input of ANY length: the output is a fresh exactly-sized object of 4*ceil(n/3)+1 bytes (every write inside
+ * it: bounds obligations), NUL-terminated at 4*ceil(n/3); every output character (ghost position) is from the standard alphabet,
+ * '=' occurs only as padding at the very end: two for n % 3 == 1, one for n % 3 == 2, none otherwise; the loop terminates. */
+void h_b64_encode_format(void) {
+    QV_IN(size_t, n);
+    QV_ASSUME(n >= 1 && n <= QV_CAP(1000000));
+    uchar *bin = malloc(n);
+    QV_ASSUME(bin != NULL);
+    QV_IN_BYTES(bin, n);
+    QV_IN(size_t, k);
+    size_t el = 4 * ((n + 2) / 3);
+    QV_ASSUME(k < el);
+    gh_k = k;
+    char *out = qbase64_encode(bin, n);
+    if (out != NULL) {
+#ifndef QV_NATIVE
+        QV_ASSERT(QV_OBJECT_SIZE(out) == el + 1 && QV_POINTER_OFFSET(out) == 0 && !QV_SAME_OBJECT(out, bin), "C12: Base64 output is a fresh exactly-sized object");
+#endif
+        QV_ASSERT(out[el] == '\0', "C16: Base64 output is NUL-terminated at 4*ceil(n/3)");
+        size_t pad = n % 3 == 1 ? 2 : n % 3 == 2 ? 1 : 0;
+        if (k < el - pad) QV_ASSERT(ISB64(out[k]), "C16: every Base64 character before the padding is from the standard alphabet (no '=' inside)");
+        else QV_ASSERT(out[k] == '=', "C16: Base64 padding is exactly two '=' for n%3==1 and one for n%3==2");
+        QV_REACH("b64 format");
+        free(out);
+    }
+    free(bin);
     QV_END();
 }
